@@ -128,5 +128,13 @@ func UnmarshalCBOR[T any](data []byte) (T, error) {
 	if err != nil {
 		return t, errs.Wrap(err).WithMessage("deserialisation error")
 	}
+	// A top-level CBOR null or undefined decodes into a nil pointer without an error from the
+	// decoder; callers dereference the result, so it is refused here.
+	if v := reflect.ValueOf(t); v.Kind() == reflect.Pointer && v.IsNil() {
+		return t, ErrNull.WithMessage("deserialisation error")
+	}
 	return t, nil
 }
+
+// ErrNull is returned when a top-level CBOR null or undefined is decoded into a pointer type.
+var ErrNull = errs.New("decoded value is null")
